@@ -6,6 +6,7 @@ import (
 	"fmt"
 	"sort"
 	"strings"
+	"time"
 
 	"github.com/sourcenetwork/corekv"
 	"github.com/sourcenetwork/immutable"
@@ -137,4 +138,36 @@ func CanonRowsUnordered(rows []map[string]any) string {
 	}
 	sort.Strings(ss)
 	return "[" + strings.Join(ss, ",") + "]"
+}
+
+// HangTimeout is the liveness deadline of a guarded request. It is far above any request's cost
+// (milliseconds); a request that has not returned by then is reported as hanging.
+var HangTimeout = 45 * time.Second
+
+// ExecGuard runs a request on its own goroutine and reports hung=true if it does not return within
+// HangTimeout (the goroutine is then abandoned; the caller should stop using this database).
+// Panics are recovered and reported.
+func ExecGuard(ctx context.Context, d *db.DB, req string, opts ...client.RequestOption) (data any, errs []string, hung bool, panicked any) {
+	type res struct {
+		data any
+		errs []string
+		p    any
+	}
+	ch := make(chan res, 1)
+	go func() {
+		var r res
+		defer func() {
+			if p := recover(); p != nil {
+				r.p = fmt.Sprint(p)
+			}
+			ch <- r
+		}()
+		r.data, r.errs = Exec(ctx, d, req, opts...)
+	}()
+	select {
+	case r := <-ch:
+		return r.data, r.errs, false, r.p
+	case <-time.After(HangTimeout):
+		return nil, nil, true, nil
+	}
 }
